@@ -9,7 +9,7 @@ KEEP=$(mktemp -d); cp -a evidence "$KEEP/"; trap 'rm -rf evidence; cp -a "$KEEP/
 for n in $names; do
   p=$(python3 -c "import json;print(json.load(open('seeded/$n/meta.json'))['property'])")
   git -C /repo apply "$PWD/seeded/$n/patch.diff" || { echo "$n: patch does not apply"; continue; }
-  timeout 1800 ./check $p --tier quick > /tmp/seeded_$n.out 2>&1; rc=$?
+  VERIF_EVIDENCE_DIR=$KEEP/scratch timeout 1800 ./check $p --tier quick > /tmp/seeded_$n.out 2>&1; rc=$?
   git -C /repo checkout -- .
   v=$(grep -c '^VIOLATION' /tmp/seeded_$n.out)
   nf=$(grep '^VIOLATION' /tmp/seeded_$n.out | grep -vc 'no-failing-input-found')
